@@ -22,7 +22,7 @@ import numpy as np
 from harness.core import Ctx
 
 ID = "C04"
-LEAN_MODULES = ["GeoVerif.Props.C04"]
+LEAN_MODULES = ["GeoVerif.Props.C04", "GeoVerif.Props.C04Table"]
 THEOREMS = [
     "GeoVerif.Concat.tiled_empty",
     "GeoVerif.Concat.put_tiled",
@@ -32,9 +32,24 @@ THEOREMS = [
     "GeoVerif.Concat.get_drop_same",
     "GeoVerif.Concat.get_drop_other",
     "GeoVerif.Concat.tiled_no_overlap",
+    "GeoVerif.Concat.tiled_exact",
     "GeoVerif.Concat.step_inv",
     "GeoVerif.Concat.step_abs",
     "GeoVerif.Concat.refines_map",
+    "GeoVerif.Concat.sortByStart_perm",
+    "GeoVerif.Concat.sortByStart_sorted",
+    "GeoVerif.Concat.sorted_slices_eq_data",
+    "GeoVerif.Concat.holes_nodup",
+    "GeoVerif.Concat.mem_holes_iff",
+    "GeoVerif.Concat.readObj_eq_slice",
+    "GeoVerif.Concat.block_entry",
+    "GeoVerif.Concat.block_length",
+    "GeoVerif.Concat.table_assoc_column",
+    "GeoVerif.Concat.put_objNodup",
+    "GeoVerif.Concat.drop_objNodup",
+    "GeoVerif.Concat.step_tinv",
+    "GeoVerif.Concat.run_tinv",
+    "GeoVerif.Concat.table_after_history",
 ]
 RULE = (
     "random API histories on a DrillholeGroup (1-4 holes, data names from a pool of 4 shared between holes, "
@@ -187,6 +202,8 @@ def run_history(ctx: Ctx, tracer: Tracer, hist_id: int, version: float, ops, pat
     from geoh5py.workspace import Workspace
 
     rng_vals = np.random.default_rng(hist_id)
+    import random as _random
+    rng_req = _random.Random(hist_id)
     lines, expect = [{"m": "concat", "op": "reset"}], [None]
     ref: dict[str, dict[str, list]] = {}       # hole name -> data name -> tokens (the Spec)
     depth_len: dict[str, int] = {}
@@ -296,6 +313,93 @@ def run_history(ctx: Ctx, tracer: Tracer, hist_id: int, version: float, ops, pat
                     failures.append((f"records: {n_holes} holes/{n_data} data, expected {len(ref)}/{exp_data} {tag}",
                                      "C04:records:count"))
 
+    def check_table(ws, tag):
+        """The group-wide table view (DrillholesGroupTable): (a) correspondence with the model's `table` computed from the
+        replayed channels, (b) oracle against the reference per-hole values: one contiguous block per hole that has depths,
+        each column labelled `name` holding that hole's values of `name` padded with the no-data value."""
+        if renamed:
+            return
+        g = ws.get_entity("G")[0]
+        try:
+            tables = g.drillholes_tables
+        except Exception as e:  # noqa: BLE001
+            failures.append((f"drillholes_tables raised {type(e).__name__}: {str(e)[:100]} {tag}", "C04:table:raises"))
+            return
+        for tname, tb in tables.items():
+            try:
+                assoc = list(tb.association)
+                props = list(tb.properties)
+            except Exception as e:  # noqa: BLE001
+                failures.append((f"table {tname}: association/properties raised {type(e).__name__} {tag}", "C04:table:raises"))
+                continue
+            if not props:
+                continue
+            # requests: the full table, and a sub-selection of the properties in an arbitrary order
+            sel = list(props)
+            rng_req.shuffle(sel)
+            sel = sel[: max(1, rng_req.randrange(len(sel) + 1))]
+            reqs = [("full", assoc + props, True), ("by_name", sel, bool(rng_req.randrange(2)))]
+            for kind_, names_, spatial in reqs:
+                try:
+                    t = tb.depth_table if kind_ == "full" else tb.depth_table_by_name(tuple(names_), spatial_index=spatial)
+                except Exception as e:  # noqa: BLE001
+                    total = sum(depth_len[hh] for hh, dd in ref.items() if dd)
+                    sig = ("C04:table:raises:IndexError:table-without-rows" if isinstance(e, IndexError) and total == 0
+                           else "C04:table:raises")
+                    failures.append((f"table {tname} {kind_} {names_} raised {type(e).__name__}: {str(e)[:100]} {tag}", sig))
+                    continue
+                cols = list(names_) if kind_ == "full" or not spatial else assoc + list(names_)
+                labels = (["Drillhole"] if spatial else []) + cols
+                if list(t.dtype.names) != labels:
+                    failures.append((f"table {tname}: column labels {t.dtype.names} != {labels} {tag}", "C04:table:labels"))
+                    continue
+                real = []
+                for i in range(len(t)):
+                    hole = tracer.num(t["Drillhole"][i]) if spatial else 0
+                    real.append([hole, [tok(t[c][i]) for c in cols]])
+                stats["tables"] = stats.get("tables", 0) + 1
+                lines.append({"m": "concat", "op": "table", "assoc": assoc[0], "names": cols,
+                              "ndv": [[c, "nan"] for c in cols]})
+                expect.append({"table": real, "spatial": spatial, "tag": tag, "req": [tname, kind_, cols]})
+                # --- oracle from the reference values (depth tables only: the reference knows their depths)
+                if assoc != ["DEPTH"]:
+                    continue
+                exp_blocks = {}
+                for hname, datas in ref.items():
+                    n = depth_len[hname]
+                    if not any(dn in datas for dn in NAMES) or n == 0:
+                        continue
+                    hid = tracer.num(ws.get_entity(hname)[0].uid)
+                    blk = []
+                    for i in range(n):
+                        row = []
+                        for c in cols:
+                            if c == "DEPTH":
+                                row.append(tok(float(i + 1)))
+                            else:
+                                row.append(datas[c][i] if c in datas else "nan")
+                        blk.append(row)
+                    exp_blocks[hid] = blk
+                if spatial:
+                    seen, order = {}, []
+                    for hole, row in real:
+                        if hole not in seen:
+                            seen[hole] = []
+                            order.append(hole)
+                        elif order[-1] != hole:
+                            failures.append((f"table {tname}: rows of one hole are not contiguous {tag}", "C04:table:not-contiguous"))
+                            break
+                        seen[hole].append(row)
+                    if seen != exp_blocks:
+                        failures.append((f"table {tname} {kind_} {cols}: blocks {seen} != per-hole values {exp_blocks} {tag}",
+                                         "C04:table:values"))
+                else:
+                    got = sorted(map(tuple, (r for _, r in real)))
+                    want = sorted(tuple(r) for b in exp_blocks.values() for r in b)
+                    if got != want:
+                        failures.append((f"table {tname} {kind_} {cols}: rows {got} != per-hole values {want} {tag}",
+                                         "C04:table:values"))
+
     ws = Workspace.create(path, version=version)
     g = DrillholeGroup.create(ws, name="G")
     flush_trace("init")
@@ -327,6 +431,7 @@ def run_history(ctx: Ctx, tracer: Tracer, hist_id: int, version: float, ops, pat
                 ws = Workspace(path)
                 state["ws"] = ws
                 state["g"] = check_api(ws, "reopen:" + str(step))
+                check_table(ws, "reopen:" + str(step))
                 ctx.count("op:reopen")
                 return
             elif not holes:
@@ -448,6 +553,7 @@ def run_history(ctx: Ctx, tracer: Tracer, hist_id: int, version: float, ops, pat
                 del h
             flush_trace(tag)
             check_api(ws, tag)
+            check_table(ws, tag)
 
     try:
         for step, op in enumerate(ops):
@@ -474,10 +580,11 @@ def compare(ctx: Ctx, cases):
     outs = ctx.driver.run(all_lines)
     i = 0
     for c in cases:
+        stop = False      # after the first disagreement of a case the model state is no longer comparable: skip the rest
         for line, exp in zip(c["lines"], c["expect"]):
             out = outs[i]
             i += 1
-            if exp is None:
+            if exp is None or stop:
                 continue
             if "raw_check" in exp:
                 ctx.count("raw_channels_judged_by_lean")
@@ -485,7 +592,19 @@ def compare(ctx: Ctx, cases):
                     ctx.fail(c["case"], f"raw file channel '{exp['raw_check']}' is not exactly tiled ({exp['tag']}): {exp['rows']}",
                              "C04:raw:not-tiled", observed=exp["rows"])
                 continue
+            if "table" in exp:
+                ctx.count("tables_compared_with_model")
+                model_rows = [[r["o"] if exp["spatial"] else 0, r["v"]] for r in out] if isinstance(out, list) else None
+                if model_rows != exp["table"]:
+                    ctx.disagree(c["case"], f"M2b correspondence: table {exp['req']} ({exp['tag']})",
+                                 model=model_rows, impl=exp["table"])
+                continue
             ctx.traces += 1
+            if isinstance(out, dict) and out.get("wk") is False:
+                ctx.count("hypothesis-WellKeyed-false")
+                ctx.disagree(c["case"], f"hypothesis WellKeyed of run_tinv does not hold for the real call {line} ({exp['tag']}): "
+                             "a hole is given a second data set under a label it already holds", model=out, impl=None)
+                stop = True
             if exp.get("err"):
                 ctx.count("prim_raised")
                 continue
@@ -496,7 +615,7 @@ def compare(ctx: Ctx, cases):
             if m_rows != exp["rows"] or m_data != (exp["data"] if exp["data"] is not None else m_data):
                 ctx.disagree(c["case"], f"M2 correspondence: update_array_attribute {line} ({exp['tag']})",
                              model=out, impl={"rows": exp["rows"], "data": exp["data"]})
-                break
+                stop = True
 
 
 def run(ctx: Ctx):
